@@ -311,7 +311,6 @@ fn str_hwaddr(ost: Option<String>) -> Result<Option<Vec<u8>>, Error> {
 
 /// Parses a prefix of the form IP/prefixlen.
 /// IP can be v4 or v6.
-/// Currently no error handling on prefixlen is done.
 fn str_prefix(ost: Option<String>) -> Result<Option<Prefix>, Error> {
     Ok(ost
         .map(|st| {
@@ -326,6 +325,18 @@ fn str_prefix(ost: Option<String>) -> Result<Option<Prefix>, Error> {
                     .parse()
                     .map_err(|x| Error::InvalidConfig(format!("{}", x)))?;
                 match str_ip(Some(sections[0].into())) {
+                    Ok(Some(std::net::IpAddr::V4(_))) if prefixlen > 32 => {
+                        Err(Error::InvalidConfig(format!(
+                            "Prefix length {} is longer than an IPv4 address in '{}'",
+                            prefixlen, st
+                        )))
+                    }
+                    Ok(Some(std::net::IpAddr::V6(_))) if prefixlen > 128 => {
+                        Err(Error::InvalidConfig(format!(
+                            "Prefix length {} is longer than an IPv6 address in '{}'",
+                            prefixlen, st
+                        )))
+                    }
                     Ok(Some(std::net::IpAddr::V4(ip4))) => Ok(Some(Prefix::V4(Prefix4 {
                         addr: ip4,
                         prefixlen,
@@ -344,7 +355,6 @@ fn str_prefix(ost: Option<String>) -> Result<Option<Prefix>, Error> {
 }
 
 /// Parses a prefix of the form IPv4/prefixlen.
-/// Currently no error handling on prefixlen is done.
 fn str_prefix4(ost: Option<String>) -> Result<Option<Prefix4>, Error> {
     Ok(ost
         .map(|st| {
@@ -359,6 +369,10 @@ fn str_prefix4(ost: Option<String>) -> Result<Option<Prefix4>, Error> {
                     .parse()
                     .map_err(|x| Error::InvalidConfig(format!("{}", x)))?;
                 match str_ip4(Some(sections[0].into())) {
+                    Ok(Some(_)) if prefixlen > 32 => Err(Error::InvalidConfig(format!(
+                        "Prefix length {} is longer than an IPv4 address in '{}'",
+                        prefixlen, st
+                    ))),
                     Ok(Some(ip4)) => Ok(Some(Prefix4 {
                         addr: ip4,
                         prefixlen,
@@ -373,7 +387,6 @@ fn str_prefix4(ost: Option<String>) -> Result<Option<Prefix4>, Error> {
 }
 
 /// Parses a prefix of the form IPv6/prefixlen.
-/// Currently no error handling on prefixlen is done.
 fn str_prefix6(ost: Option<String>) -> Result<Option<Prefix6>, Error> {
     Ok(ost
         .map(|st| {
@@ -388,6 +401,10 @@ fn str_prefix6(ost: Option<String>) -> Result<Option<Prefix6>, Error> {
                     .parse()
                     .map_err(|x| Error::InvalidConfig(format!("{}", x)))?;
                 match str_ip6(Some(sections[0].into())) {
+                    Ok(Some(_)) if prefixlen > 128 => Err(Error::InvalidConfig(format!(
+                        "Prefix length {} is longer than an IPv6 address in '{}'",
+                        prefixlen, st
+                    ))),
                     Ok(Some(ip6)) => Ok(Some(Prefix6 {
                         addr: ip6,
                         prefixlen,
